@@ -108,8 +108,8 @@ CHECKS.update({
                  "R-GATE must-pass-through (edge dominance + argument binding) and mode-reachability exploration over LLVM IR; R-QLOOP quantifier-loop exit rule; R-SIB sibling-call agreement; R-TAB T17,T18 " + TAB + "; R-ERRFLOW"),
  "C08": _partial("C08", "face adjacency/rotation tables are mutual inverses (T5), overage tables (T9), substrate vertex tables are closed ccw rings and the pentagon ones are their "
                  "first five rows (T13); cellAreaKm2 = Rads2*R^2, cellAreaM2 = Km2*10^6; cellAreaRads2 adds one triangle per side (i, (i+1) mod numVerts) of the boundary ring, "
-                 "every side once, accumulator from 0.0 (R-FOLD).",
-                 "vertex counts, ccw order, coincidence of shared edges, areas summing to 4*pi (numeric geometry).", "R-TAB T5,T9,T13 " + TAB + "; R-CFORM " + CF + "; R-FOLD accumulation-shape rule"),
+                 "every side once, accumulator from 0.0 (R-FOLD); every vertex caller of _adjustOverageClassII passes pentLeading4 = 0 like its siblings (R-SYM substrate).",
+                 "vertex counts, ccw order, coincidence of shared edges, areas summing to 4*pi (numeric geometry).", "R-TAB T5,T9,T13 " + TAB + "; R-CFORM " + CF + "; R-FOLD accumulation-shape rule; R-SYM sibling-agreement rule on call arguments"),
  "C09": _partial("C09", "E_RES_MISMATCH for cells of different resolution on gridDistance, gridPathCellsSize, gridPathCells, cellToLocalIj; mode != 0 => E_OPTION_INVALID; the lattice "
                  "tables that define 'neighbour' and that cellToLocalIjk unfolds with (T1,T2,T3,T10); PENTAGON_ROTATIONS_REVERSE undoes PENTAGON_ROTATIONS (T14); the index rotations "
                  "both directions apply are exact for all index values (R-BITPROV); overflow-checked parents cannot wrap (R-OVF); failing callees make the callers fail (R-ERRFLOW); "
@@ -159,8 +159,8 @@ CHECKS.update({
                  "R-SIB pairing rules (a loop keeps the bounding box it was tested with; candidate arrays are forwarded with their length); R-SYM self-exclusion rule (edge dominance of a pointer comparison over the containment call)"),
  "C19": _partial("C19", "maxFaceCount = 5 for a pentagon else 2; getIcosahedronFaces initialises and writes only slots below that count (relation facts incl. the insertion loop); "
                  "face adjacency tables (T5, T9); the dispatch between the methods: a pentagon at an even (Class II) resolution never reaches a vertex method, an odd-resolution "
-                 "pentagon never the hexagon method nor the recursion, a hexagon never the pentagon method (guard rows of kind reach).",
-                 "that the reported faces are exactly the intersected ones (overage geometry).", "R-CFORM " + CF + "; R-BW " + BW + "; R-GUARD " + G + "; R-TAB T5,T9 " + TAB),
+                 "pentagon never the hexagon method nor the recursion, a hexagon never the pentagon method (guard rows of kind reach); every vertex caller of _adjustOverageClassII passes pentLeading4 = 0 like its siblings (R-SYM substrate).",
+                 "that the reported faces are exactly the intersected ones (overage geometry).", "R-CFORM " + CF + "; R-BW " + BW + "; R-GUARD " + G + "; R-TAB T5,T9 " + TAB + "; R-SYM sibling-agreement rule on call arguments"),
  "C20": _partial("C20", "one unpadded lower-case 64-bit %x applied to the whole index and written to str; longest output (derived from the format) + NUL never reachable with a "
                  "smaller sz; sz < 17 => E_MEMORY_BOUNDS with the buffer untouched and sz = 17 accepted; stringToH3 parses with the same conversion, stores only when exactly one item "
                  "was converted, otherwise returns an error. Given the C standard's semantics of %lx these imply the round trip for all 2^64 values.",
